@@ -15,7 +15,7 @@ PROP = {
         "the CRDT side of SetYSON/FromCRDT is not modelled: `rebuild` is a value-level description of their composition, tied by differential replay on literals and on exports of documents built through the json API",
     ],
     "level_text": "Lean theorems over every YSON value (unbounded size/depth, structural induction): under the decidable YsonSafe, Unmarshal(Marshal(v)) = v on the "
-                  "TEXT-level model of the Go code (strconv.Quote and IsPrint, the string-literal-aware scanner of preprocessTypeValues with the regexp + ten ReplaceAll passes of preprocessTypeTokens, encoding/json into interface{}, "
+                  "TEXT-level model of the Go code (quoteJSON with strconv.IsPrint, the string-literal-aware scanner of preprocessTypeValues with the regexp + ten ReplaceAll passes of preprocessTypeTokens, encoding/json into interface{}, "
                   "parseObject/parseArray/parseTypedValue/...): proved in three layers (pre-pass, JSON reader, tree-level parser), none of them trusted; "
                   "under RebuildSafe, SetYSON->FromCRDT is the identity (value-level model); one kernel-evaluated negation witness per unsafe shape. "
                   "Tied to pkg/document/yson and pkg/document/json by differential replay "
@@ -23,7 +23,7 @@ PROP = {
     "level_note": "Trusted: Lean kernel; the hand-written model agrees with the Go code only as far as the `yson` engine's values exercise it.",
     "technique": "Lean 4 proof (structural induction over YSON values) + differential replay of yson.Marshal/Unmarshal and json.SetYSON/yson.FromCRDT",
     "partial": [
-        "Unmarshal(Marshal(v)) = v is false of the code: proved under YsonSafe; 5 unsafe shapes remain listed as known findings with witnesses (type member, Go-only escapes, unescaped keys, non-finite doubles, date range); repaired and now inside the theorem: text inside string literals and the empty dedup counter (/repo 0cf3884e), Long precision beyond 2^53 and the panics on `type` look-alikes (UseNumber / checked-assertions fix; unmarshal_never_panics holds for every text). Their old failures are kept as witnesses about the OLD code (Model/YsonV0.lean: V0, V0Float)",
+        "Unmarshal(Marshal(v)) = v is false of the code: proved under YsonSafe; 3 unsafe shapes remain listed as known findings with witnesses (type member, non-finite doubles, date range); repaired and now inside the theorem: text inside string literals and the empty dedup counter (/repo 0cf3884e), Long precision beyond 2^53 and the panics on `type` look-alikes (/repo 442be605; unmarshal_never_panics holds for every text), Go-only escapes and unescaped keys (JSON-string-literal fix: quoteJSON for every string and key). Their old failures are kept as witnesses about the OLD code (Model/YsonV0.lean: V0, V0Float, V0Quote)",
         "documents are explored by random multi-replica histories through the json API, not by a CRDT model: that every reachable export is RebuildSafe is tested (oracle), not proved",
     ],
     "not_modelled": [
